@@ -484,13 +484,49 @@ def clause_implies_(cl, lit):
     return clause_implies(cl, lit)
 
 
-RULES = [c08_1, c08_2, c08_3, c08_6, c08_7, mute_state]
+def c08_state(ctx):
+    """Per-statement / per-lookup properties presuppose that nothing is remembered between statements beyond the reviewed state."""
+    from rules.shared import state_discipline
+    state_discipline(ctx, ('bespokeasm.assembler.preprocessor', 'bespokeasm.assembler.line_object.preprocessor_line', 'bespokeasm.assembler.assembly_file', 'bespokeasm.assembler.line_object.factory'))
+
+
+def c08_latch(ctx):
+    ctx.rule('C08.8', 'a branch decision is taken once, when its directive is reached: no condition class opts out of the latch', 3)
+    base = ctx.repo.cls(COND + '.PreprocessorCondition')
+    for name in ('latch', '_current_value', 'is_lineage_true'):
+        impls = [f for f in base.implementations(name)]
+        extra = [f for f in impls if f.cls is not base]
+        ctx.check(name in base.methods and not extra, f'latch:{name}:single-implementation', (extra[0].site() if extra else base.methods[name].site()) if name in base.methods else '-',
+                  f'{name} is implemented by PreprocessorCondition only (every directive kind remembers the value it had when it was reached)',
+                  '; '.join(ctx.short(f) for f in extra) + ' overrides it')
+    lt = base.methods.get('latch')
+    if lt is not None:
+        st = self_attr_stores(lt.node, '_latched_value')
+        rr = returns(lt)
+        ok = len(st) == 1 and unparse(st[0][2]) == f'self.evaluate({lt.call_params[0].arg})' and len(rr) == 1 and unparse(rr[0].value) == 'self._latched_value'
+        ctx.check(ok, 'latch:stores-evaluation', lt.site(), 'latch evaluates the condition once, stores the result and returns the stored result', '; '.join(unparse(s_[0]) for s_ in st))
+    cv = base.methods.get('_current_value')
+    if cv is not None:
+        r0 = resolver(ctx, cv, inline=False)
+        rets = returns(cv)
+        ok = any(unparse(r.value) == 'self._latched_value' and any(c == frozenset({('isnone', 'self._latched_value', False)}) for c in facts_at(ctx, cv, r, r0)) for r in rets)
+        ctx.check(ok, 'latch:value-reused', cv.site(), 'once latched, the stored value is what later look-ups see', '; '.join(unparse(r) for r in rets))
+
+
+def c08_numeric(ctx):
+    """"Conditions compare integers when both sides are numeric": what is numeric is decided by the literal notations of C07.5."""
+    from rules.c07 import c07_5
+    c07_5(ctx)
+
+
+RULES = [c08_1, c08_2, c08_3, c08_6, c08_7, mute_state, c08_state, c08_latch, c08_numeric]
 
 _CSF = 'assembler/preprocessor/condition_stack.py'
 _CF = 'assembler/preprocessor/condition.py'
 _PF = 'assembler/line_object/preprocessor_line/factory.py'
 _AF = 'assembler/assembly_file.py'
 MUTANTS = [
+    V('c08-ifdef-not-latched', 'assembler/preprocessor/condition.py', "class IfdefPreprocessorCondition(PreprocessorCondition):\n", "class IfdefPreprocessorCondition(PreprocessorCondition):\n    def latch(self, preprocessor):\n        return self.evaluate(preprocessor)\n\n", 'C08.8'),
     V('c08-elif-bare-uses-if-pattern', 'assembler/preprocessor/condition.py', "            PREPROCESSOR_CONDITION_ELIF_PATTERN,\n            PREPROCESSOR_CONDITION_IMPLIED_ELIF_PATTERN,", "            PREPROCESSOR_CONDITION_ELIF_PATTERN,\n            PREPROCESSOR_CONDITION_IMPLIED_IF_PATTERN,", 'C08.7'),
     V('c08-top-only', _CSF, '        self._active.append(enclosing_active and condition.latch(preprocessor))', '        self._active.append(condition.latch(preprocessor))', 'C08.1'),
     V('c08-enclosing-or', _CSF, '        self._active.append(enclosing_active and condition.latch(preprocessor))', '        self._active.append(enclosing_active or condition.latch(preprocessor))', 'C08.1'),
